@@ -371,8 +371,15 @@ public:
   void setTlsConfig(const TlsConfig &config)
   {
     std::lock_guard<std::mutex> lock(_mutex);
+    // The transport builds its TLS contexts once, when it is created on first
+    // use. A configuration set afterwards would be silently ignored - e.g.
+    // verifyPeer switched on would leave verification off - so refuse it.
+    if (_transport)
+    {
+      throw std::logic_error(
+        "HttpClient::setTlsConfig must be called before the client is first used");
+    }
     _tlsConfig = config;
-    // TLS config is applied per-connection during connect
   }
 
   /// \brief Set DNS servers for domain resolution
